@@ -10,6 +10,7 @@ def parseOp (s : String) : Option (Op Nat) :=
   | 'x' => tl.toNat?.map fun n => .exec (List.range n)
   | 'y' => tl.toNat?.map fun v => .exec [v]        -- a statement answering with one (status) row
   | 'o' => some .one
+  | 'f' => some .fail
   | 'm' => tl.toNat?.map .many
   | 'a' => some .all
   | 's' => tl.toNat?.map .setAs
